@@ -1,9 +1,10 @@
 -------------------------------- MODULE MCMt --------------------------------
 (* Prints the Marsaglia-Tsang anchors of MtTable as cases for the harness *)
-EXTENDS MtTable, Sequences, Integers, TLC, Json
+EXTENDS MtTable, Sequences, Integers, TLC, Json, IOUtils
+TT == IF "TIER" \in DOMAIN IOEnv /\ IOEnv.TIER = "thorough" THEN MTabT ELSE MTab
 VARIABLE c
 Init == c = 0
-Next == /\ c < Len(MTab) /\ c' = c + 1
-        /\ PrintT(<<"CASE", ToJson([kernel |-> "mt", id |-> MTab[c'].id, shape |-> MTab[c'].shape, xs |-> [j \in 1..Len(MTab[c'].xs) |-> MTab[c'].xs[j].x]])>>)
+Next == /\ c < Len(TT) /\ c' = c + 1
+        /\ PrintT(<<"CASE", ToJson([kernel |-> "mt", id |-> TT[c'].id, shape |-> TT[c'].shape, xs |-> [j \in 1..Len(TT[c'].xs) |-> TT[c'].xs[j].x]])>>)
 Spec == Init /\ [][Next]_c
 =============================================================================
